@@ -229,4 +229,4 @@ def run(ctx):
     ps = enum_plans(quick)
     ctx.parallel(_worker_enum, [ps[i::48] for i in range(48)])
     ctx.exhaustive["every V x path x second-reset mode fault-free; single fault on each of the first N frames"] = True
-    ctx.parallel(_worker, [25] * 16 if quick else [650] * 16)
+    ctx.parallel(_worker, [80] * 16 if quick else [650] * 16)
